@@ -31,7 +31,7 @@ RULE = (
     "cutplace.validate(fresh Cid, path, validate_until) for existing files, 'unreadable' for M and D; expected "
     "exit {0} iff CID loads and all files accepted, {1} CID rejected or a file rejected, {3} a named file "
     "unreadable, {1,3} when both, 2 (returned or SystemExit) for unusable arguments, never 4. Metamorphic: all "
-    "orders of the same files give the same exit code unless {1,3} applies. Thorough (a few in quick): a seed-"
+    "orders of the same files give the same exit code (also where {1,3} leaves open which one). Thorough (a few in quick): a seed-"
     "chosen sample is repeated with `python -m cutplace.applications` subprocesses and must give the same code. "
     "Non-trivial: >= 2 data files, or an existing data file with --until 3/4. Distinct by construction."
 )
@@ -302,8 +302,10 @@ def check_multiset(sub, files, variant, multiset, classes, only=None):
             if any(k in ("F", "U") and v == "accepted" for k, v in verdicts):
                 classes["bad-row-behind-limit"] = classes.get("bad-row-behind-limit", 0) + 1
         codes = sorted(set(str(code) for _, code in results))
-        if len(expected) == 1 and len(codes) > 1:
-            # the same files in another order give another exit code
+        if len(codes) > 1:
+            # the same files in another order give another exit code: "each file being judged independently of the
+            # other files and of their order" makes the exit code a function of the set of files, also where {1,3}
+            # leaves open which of the two codes that is
             case, _ = results[0]
             detail = dict(case)
             detail["codes_by_order"] = [["".join(c["files"]), code] for c, code in results]
